@@ -272,9 +272,10 @@ def observe(ctx, argv, base, shared, use_stdin, file_out):
     notes = []
     for line in text.splitlines():
         # the note is the line after `error: ...` that tells which --allow lifts the check; never the error line itself
-        m = re.search(r"--allow\s+([A-Za-z0-9_-]+)", line)
-        if m and not line.startswith("error"):
-            notes.append(m.group(1))
+        # every lint a note line names counts (seeded change C14-17: a second `--allow` on the same line named a lint the user
+        # had already allowed)
+        if not line.startswith("error"):
+            notes += re.findall(r"--allow\s+([A-Za-z0-9_-]+)", line)
     obs = {"rc": rc, "notes": notes, "recorded": None, "wrote": False, "decode_error": None,
            "stderr": text[-600:], "extra_files": []}
     blob = out
